@@ -35,6 +35,18 @@ def check_group(ex, key, recs, rnd, rep, stats):
         out = np.array([oc(v) for v in rec['out']])
         if not np.iscomplexobj(ratio):
             w, seq, out = w.real, seq.real, out.real
+        if rk in ('2', '3', '4'):
+            # the same ratio given as a Python / numpy integer must give the same rule
+            for ir in (int(ratio), np.int64(int(ratio))):
+                try:
+                    ri = ex.Richardson(step_ratio=ir, step=step, order=order, num_terms=numterms).rule(S)
+                    ok_int = np.shape(ri) == np.shape(w) and np.allclose(ri, w, rtol=1e-9, atol=1e-12)
+                except Exception as ex_:
+                    ok_int, ri = False, repr(ex_)
+                if not ok_int:
+                    rep.violation('int-ratio:' + name, dict(case=name, ratio_type=type(ir).__name__, got=repr(ri)[:200], want=w.tolist()),
+                                  '%s: step_ratio given as %s %r gives %s, exact weights %s' % (name, type(ir).__name__, ir, repr(ri)[:120], w.tolist()))
+                    break
         try:
             rule = obj.rule(S)
         except Exception as ex_:
